@@ -21,6 +21,8 @@ pub enum GSpec {
     /// from_poly over the current output space, identity on the polytope
     FromPoly(Vec<(Vec<f64>, f64)>, bool),
     User(TSpec),
+    /// the operand after its own infeasible_elimination (it carries cached feasibility states)
+    Eliminated(Box<GSpec>),
 }
 
 pub fn polytope(rows: &[(Vec<f64>, f64)]) -> Polytope {
@@ -45,11 +47,13 @@ impl GSpec {
             GSpec::ClassChar(c) => d >= 2 && *c < d,
             GSpec::FromPoly(rows, _) => rows[0].0.len() == d,
             GSpec::User(t) => t.aff().indim == d,
+            GSpec::Eliminated(g) => g.fits(d),
         }
     }
     pub fn out_dim(&self, d: usize) -> usize {
         match self {
             GSpec::Argmax | GSpec::ClassChar(_) => 1,
+            GSpec::Eliminated(g) => g.out_dim(d),
             GSpec::User(t) => t.out_dim().unwrap_or(d),
             _ => d,
         }
@@ -68,11 +72,17 @@ impl GSpec {
                 AffTree::<2>::from_poly(polytope(rows), Aff::identity(d).to_real(), if *with_else { Some(&e) } else { None }).unwrap()
             }
             GSpec::User(t) => t.build::<2>(),
+            GSpec::Eliminated(g) => {
+                let mut t = g.build(d);
+                t.infeasible_elimination();
+                t
+            }
         }
     }
     pub fn to_json(&self) -> Value {
         match self {
             GSpec::User(t) => json!({"user_tree": t.to_json()}),
+            GSpec::Eliminated(g) => json!({"after_own_infeasible_elimination": g.to_json()}),
             o => json!(format!("{:?}", o)),
         }
     }
